@@ -1,6 +1,7 @@
 SPECIFICATION Spec
 CONSTANT D = 0
 CONSTANT Mode = "table"
+CONSTANT OpSubset = "full"
 CONSTANT MaxLen = 6
 INVARIANT EmitObs
 INVARIANT ObsCoherent
